@@ -129,7 +129,7 @@ def settings_dict(world):
                 d["tf_minimum_u_value"] = l["tf"]["minU"]
             lv.append(d)
         comps.append({"output_column_name": f"{c['col']}{ci}", "comparison_levels": lv})
-    return {"link_type": "dedupe_only", "comparisons": comps, "blocking_rules_to_generate_predictions": list(world["rules"]),
+    return {"link_type": world.get("link_type", "dedupe_only"), "comparisons": comps, "blocking_rules_to_generate_predictions": list(world["rules"]),
             "probability_two_random_records_match": world["prior"], "retain_matching_columns": True, "retain_intermediate_calculation_columns": True,
             "max_iterations": 3, "em_convergence": 0.01}
 
@@ -137,12 +137,34 @@ def settings_dict(world):
 TYPES = {"unique_id": "int", "a": "str", "b": "str", "c": "int", "d": "str", "lab": "str"}
 
 
+def input_frames(world, rows=None):
+    """The input data as typed frames: one frame, or (link types: world["link_type"] != "dedupe_only") two frames, the first holding the
+    records whose unique_id is in world["first_table_ids"]."""
+    from harness import impl
+
+    rows = world["rows"] if rows is None else rows
+    if world.get("link_type", "dedupe_only") == "dedupe_only":
+        return [impl.typed_frame(rows, TYPES)]
+    first = set(world["first_table_ids"])
+    return [impl.typed_frame([r for r in rows if r["unique_id"] in first], TYPES), impl.typed_frame([r for r in rows if r["unique_id"] not in first], TYPES)]
+
+
+def source_dataset_of(world, uid):
+    """Name of the source dataset of a record when the inputs are frames (Splink's own aliases)."""
+    return "__splink__input_table_0" if (world.get("link_type", "dedupe_only") == "dedupe_only" or uid in set(world["first_table_ids"])) else "__splink__input_table_1"
+
+
 def make_linker(world, api, settings=None, table_name=None):
-    """Input data live in a real table `people` (so that they can be mutated in place)."""
+    """Input data live in a real table `people` (so that they can be mutated in place); worlds with input_form == "frame" (used by the
+    re-registration histories) hand the linker DataFrames instead: Splink registers them as __splink__input_table_<i> with
+    overwrite=True, so a second Linker on the same DatabaseAPI REPLACES the first one's input tables."""
     from splink import Linker
 
     from harness import impl
 
+    if world.get("input_form") == "frame":
+        frames = input_frames(world)
+        return Linker(frames if len(frames) > 1 else frames[0], settings if settings is not None else settings_dict(world), api)
     name = table_name or "people"
     df = impl.typed_frame(world["rows"], TYPES)
     if world["engine"] == "duckdb":
@@ -157,6 +179,106 @@ def make_linker(world, api, settings=None, table_name=None):
 # --------------------------------------------------------------------------- operations
 OPS = ["estimate_u", "estimate_m_label", "em", "estimate_prior", "predict", "predict_thr", "deterministic_link", "cluster", "compute_tf",
        "register_tf_lookup", "find_matches", "compare_two", "graph_metrics", "invalidate", "mutate_invalidate", "delete_splink_tables"]
+
+
+# Operations that REPLACE a table under its name through Splink (register_* with overwrite=True, a second Linker over new frames) and
+# the computations derived from such tables.  Kept out of OPS (C08/C18 draw from OPS); used by C07's re-registration histories.
+REREG_REGISTER_OPS = ["register_predict", "register_labels", "register_concat_with_tf", "register_user_table", "relink"]
+REREG_OBSERVED_OPS = ["cluster_registered", "best_links_registered", "graph_metrics_registered", "accuracy_labels_table", "prediction_errors_labels_table",
+                      "estimate_m_pairwise_labels", "blocking_analysis_user_table"]
+REREG_OPS = REREG_REGISTER_OPS + REREG_OBSERVED_OPS
+LABELS_NAME = "my_labels"
+USER_TABLE_NAME = "extra_people"
+
+
+def _with_sources(world):
+    return world.get("link_type", "dedupe_only") != "dedupe_only"
+
+
+def predict_table_types(world):
+    t = {"unique_id_l": "int", "unique_id_r": "int", "match_weight": "float", "match_probability": "float"}
+    return dict({"source_dataset_l": "str", "source_dataset_r": "str"}, **t) if _with_sources(world) else t
+
+
+def labels_table_types(world):
+    t = {"unique_id_l": "int", "unique_id_r": "int", "clerical_match_score": "float"}
+    return dict({"source_dataset_l": "str", "source_dataset_r": "str"}, **t) if _with_sources(world) else t
+
+
+def _pairs(rng, world, ids, n):
+    out = {}
+    for _ in range(n):
+        a, b = sorted(rng.sample(ids, 2))
+        row = {"unique_id_l": a, "unique_id_r": b}
+        if _with_sources(world):
+            row["source_dataset_l"], row["source_dataset_r"] = source_dataset_of(world, a), source_dataset_of(world, b)
+        out[(a, b)] = row
+    return [out[k] for k in sorted(out)]
+
+
+def gen_rereg_step(rng: random.Random, world, op, ids=None):
+    """Parameters of one re-registration / derived-computation step. `ids`: the unique ids the data hold at that point of the history."""
+    import math
+
+    ids = ids or [r["unique_id"] for r in world["rows"]]
+    if op == "register_predict":
+        rows = _pairs(rng, world, ids, rng.randint(3, 9))
+        for r in rows:
+            pr = rng.choice([0.02, 0.3, 0.5, 0.6, 0.9, 0.97])
+            r["match_probability"], r["match_weight"] = pr, math.log2(pr / (1 - pr))
+        return {"op": op, "p": {"rows": rows, "overwrite": True}}
+    if op == "register_labels":
+        rows = _pairs(rng, world, ids, rng.randint(3, 8))
+        for r in rows:
+            r["clerical_match_score"] = rng.choice([0.0, 1.0, 1.0, 0.9, 0.3])
+        return {"op": op, "p": {"rows": rows, "form": rng.choice(["named", "named", "named, passed as the returned SplinkDataFrame", "register_labels_table"]), "overwrite": True}}
+    if op == "register_concat_with_tf":
+        return {"op": op, "p": {"drop_last": rng.choice([0, 0, 1, 2]), "overwrite": True}}
+    if op == "register_user_table":
+        rows = []
+        for k in range(rng.randint(4, 8)):
+            rows.append({"unique_id": 3000 + k, "a": rng.choice(c02.STR_DOM[:4]), "b": rng.choice(c02.STR_DOM[:3]), "c": rng.choice(c02.INT_DOM), "d": rng.choice(["p", "q"]), "lab": None})
+        return {"op": op, "p": {"rows": rows, "overwrite": True}}
+    if op == "relink":
+        return {"op": op, "p": {"new_row": {"unique_id": 700 + rng.randrange(200), "a": rng.choice(c02.STR_DOM[:5]), "b": rng.choice(c02.STR_DOM[:4]), "c": rng.choice(c02.INT_DOM),
+                                            "d": rng.choice(["p", "q"]), "lab": rng.choice([None, "e1", "e2"])}}}
+    if op == "cluster_registered":
+        return {"op": op, "p": rng.choice([{"t": 0.5}, {"t": 0.25}, {"t": 0.95}, {"w": 0.0}, {}])}
+    if op == "best_links_registered":
+        return {"op": op, "p": {"t": rng.choice([0.25, 0.5, 0.95]), "free": rng.choice([[0], [1], [0, 1]])}}
+    if op == "graph_metrics_registered":
+        return {"op": op, "p": {"t": rng.choice([0.25, 0.5])}}
+    if op == "accuracy_labels_table":
+        return {"op": op, "p": {"thr": rng.choice([0.5, 0.5, 0.9, 0.1]), "round": rng.choice([0.1, 1.0, None])}}
+    if op == "prediction_errors_labels_table":
+        fp, fn = rng.choice([(True, True), (True, False), (False, True)])
+        return {"op": op, "p": {"fp": fp, "fn": fn, "thr": rng.choice([0.5, 0.5, 0.9, 0.1])}}
+    if op == "estimate_m_pairwise_labels":
+        return {"op": op, "p": {}}
+    if op == "blocking_analysis_user_table":
+        return {"op": op, "p": {"kind": rng.choice(["count_comparisons", "cumulative_comparisons", "n_largest_blocks"]), "rule": rng.choice(["l.d = r.d", "l.a = r.a", "l.a = r.a and l.b = r.b"])}}
+    raise ValueError(op)
+
+
+def canon_table(records):
+    """Records of a result table as JSON-able dicts, NaN -> None, in a stable order (non-float fields first)."""
+    import json as _json
+
+    rows = []
+    for r in records:
+        rows.append({k: (None if isinstance(v, float) and v != v else v) for k, v in _json.loads(_json.dumps(r, default=str)).items()})
+    rows.sort(key=lambda r: (_json.dumps({k: v for k, v in r.items() if not isinstance(v, float)}, sort_keys=True),
+                             _json.dumps({k: round(v, 6) for k, v in r.items() if isinstance(v, float)}, sort_keys=True)))
+    return rows
+
+
+def note_registered(state, kind, step):
+    """state["registered"]: the tables the caller currently has registered with the linker's API, as the steps that registered them, in
+    the order of their last registration (a fresh reference linker replays exactly these)."""
+    reg = [x for x in state.get("registered", []) if x[0] != kind]
+    if step is not None:
+        reg.append([kind, step])
+    state["registered"] = reg
 
 
 def gen_history(rng: random.Random, world, length=None, ops=None):
@@ -200,6 +322,8 @@ def apply_op(linker, world, step, state):
 
     op, p = step["op"], step["p"]
     api = linker._db_api
+    if op in REREG_OPS:
+        return apply_rereg_op(linker, world, step, state)
     if op == "estimate_u":
         linker.training.estimate_u_using_random_sampling(max_pairs=1e5)
         return None
@@ -236,6 +360,9 @@ def apply_op(linker, world, step, state):
         tdf = impl.typed_frame([{col: v, f"tf_{col}": t} for v, t in p["table"].items()], {col: "str", f"tf_{col}": "float"})
         linker.table_management.register_term_frequency_lookup(tdf, col, overwrite=True)
         state.setdefault("lookups", {})[col] = p["table"]
+        if "registered" in state:
+            note_registered(state, f"lookup:{col}", step)
+            note_registered(state, "concat_with_tf", None)  # the registration forgets __splink__df_concat_with_tf (documented in the code)
         return None
     if op == "find_matches":
         df = impl.typed_frame(p["records"], TYPES)
@@ -255,6 +382,12 @@ def apply_op(linker, world, step, state):
         linker.table_management.invalidate_cache()
         # invalidate_cache() empties the whole cache dict, registered lookup tables included (documented behaviour)
         state.pop("predict", None); state.pop("cluster", None); state.pop("lookups", None)
+        if "registered" in state:
+            # the dict entries of the registered lookups / concat_with_tf / predictions are gone; tables the caller addresses by name
+            # (labels, own tables) are not Splink's to drop and stay usable
+            state["registered"] = [x for x in state["registered"] if x[0] in ("labels", "user_table")]
+            state.pop("reg_predict", None)  # registered predictions are no longer served to predict(); the caller lets go of the handle too
+        state.pop("kept", None)
         return None
     if op == "mutate_invalidate":
         row = p["new_row"]
@@ -271,8 +404,129 @@ def apply_op(linker, world, step, state):
         return None
     if op == "delete_splink_tables":
         linker.table_management.delete_tables_created_by_splink_from_db()
-        state.pop("predict", None); state.pop("cluster", None)
+        state.pop("predict", None); state.pop("cluster", None); state.pop("kept", None)
         return None
+    raise ValueError(op)
+
+
+def _keep(state, label, sdf, rows):
+    """Results the caller keeps: they must still read as they were after later operations (until a clean-up drops Splink's tables)."""
+    state["kept"] = (state.get("kept", []) + [[label, sdf, rows]])[-3:]
+
+
+def apply_rereg_op(linker, world, step, state):
+    """The operations that replace a table under its name through Splink, and the computations derived from such tables.  The observed
+    ones return the canonical PUBLIC result (compared with the same call on a fresh linker by C07)."""
+    import json as _json
+
+    from harness import impl
+
+    op, p = step["op"], step["p"]
+    api = linker._db_api
+    state.setdefault("registered", [])
+    kw_ow = {} if p.get("overwrite") is None else {"overwrite": p["overwrite"]}
+    if op == "register_predict":
+        state["reg_predict"] = linker.table_management.register_table_predict(impl.typed_frame(p["rows"], predict_table_types(world)), **kw_ow)
+        state["reg_predict_rows"] = p["rows"]
+        note_registered(state, "predict", step)
+        return len(p["rows"])
+    if op == "register_labels":
+        df = impl.typed_frame(p["rows"], labels_table_types(world))
+        if p["form"] == "register_labels_table":
+            state["labels"] = linker.table_management.register_labels_table(df, **kw_ow)
+        else:
+            sdf = linker.table_management.register_table(df, LABELS_NAME, **kw_ow)
+            state["labels"] = sdf if "SplinkDataFrame" in p["form"] else LABELS_NAME
+        note_registered(state, "labels", step)
+        return len(p["rows"])
+    if op == "register_concat_with_tf":
+        rows = p.get("rows")
+        if rows is None:
+            # "a pre-computed version of the input_nodes_concat_with_tf table ... that you created in a previous run": computed by a
+            # throw-away linker on a database of its own (current data, current model, current lookups), then possibly cut short
+            from splink.internals.pipeline import CTEPipeline
+            from splink.internals.vertically_concatenate import compute_df_concat_with_tf
+
+            model = _json.loads(_json.dumps(linker.misc.save_model_to_json(out_path=None)))
+            l0 = make_linker(dict(world, rows=current_rows(world, state)), impl.make_api(world["engine"], threads=2), settings=model)
+            for kind, st in state["registered"]:
+                if kind.startswith("lookup:"):
+                    apply_op(l0, world, st, {})
+            rows = canon_table(compute_df_concat_with_tf(l0, CTEPipeline()).as_record_dict())
+            rows.sort(key=lambda r: r["unique_id"])
+            rows = rows[: len(rows) - p["drop_last"]] if p["drop_last"] else rows
+        types = dict(TYPES)
+        for k in rows[0]:
+            if k not in types:
+                types[k] = "str" if k == "source_dataset" else "float"
+        types = {k: types[k] for k in rows[0]}
+        state["reg_concat"] = linker.table_management.register_table_input_nodes_concat_with_tf(impl.typed_frame(rows, types), **kw_ow)
+        note_registered(state, "concat_with_tf", {"op": op, "p": dict(p, rows=rows)})
+        return len(rows)
+    if op == "register_user_table":
+        linker.table_management.register_table(impl.typed_frame(p["rows"], TYPES), USER_TABLE_NAME, **kw_ow)
+        note_registered(state, "user_table", step)
+        return len(p["rows"])
+    if op == "relink":
+        # the input data change THROUGH Splink: a new Linker over the new frames on the SAME DatabaseAPI (a notebook cell run again);
+        # Splink re-registers __splink__input_table_<i> with overwrite=True.  The model is the saved one.
+        from splink import Linker
+
+        model = _json.loads(_json.dumps(linker.misc.save_model_to_json(out_path=None)))
+        state.setdefault("extra_rows", []).append(p["new_row"])
+        frames = input_frames(world, current_rows(world, state))
+        state["linker"] = Linker(frames if len(frames) > 1 else frames[0], model, api)
+        return len(current_rows(world, state))
+    if op in ("cluster_registered", "best_links_registered", "graph_metrics_registered"):
+        sdf = state.get("reg_predict")
+        if sdf is None:
+            return None
+        if op == "cluster_registered":
+            kw = {"threshold_match_probability": p["t"]} if "t" in p else {"threshold_match_weight": p["w"]} if "w" in p else {}
+            r = linker.clustering.cluster_pairwise_predictions_at_threshold(sdf, **kw)
+        elif op == "best_links_registered":
+            if not _with_sources(world):
+                return None  # needs a source dataset column
+            r = linker.clustering.cluster_using_single_best_links(sdf, duplicate_free_datasets=[f"__splink__input_table_{i}" for i in p["free"]], threshold_match_probability=p["t"])
+        else:
+            if not any(x["match_probability"] >= p["t"] for x in state["reg_predict_rows"]):
+                return None
+            cl = linker.clustering.cluster_pairwise_predictions_at_threshold(sdf, threshold_match_probability=p["t"])
+            gm = linker.clustering.compute_graph_metrics(sdf, cl, threshold_match_probability=p["t"])
+            return canon_table([dict(x, __table="nodes") for x in gm.nodes.as_record_dict()] + [dict(x, __table="edges") for x in gm.edges.as_record_dict()]
+                               + [dict(x, __table="clusters") for x in gm.clusters.as_record_dict()])
+        rows = canon_table(r.as_record_dict())
+        _keep(state, op, r, rows)
+        return rows
+    if op in ("accuracy_labels_table", "prediction_errors_labels_table", "estimate_m_pairwise_labels"):
+        labels = state.get("labels")
+        if labels is None:
+            return None
+        if op == "accuracy_labels_table":
+            r = linker.evaluation.accuracy_analysis_from_labels_table(labels, threshold_match_probability=p["thr"], match_weight_round_to_nearest=p["round"], output_type="table")
+        elif op == "prediction_errors_labels_table":
+            r = linker.evaluation.prediction_errors_from_labels_table(labels, include_false_positives=p["fp"], include_false_negatives=p["fn"], threshold_match_probability=p["thr"])
+        else:
+            linker.training.estimate_m_from_pairwise_labels(labels)
+            # what THIS call estimated: a linker's m probabilities are by design the average over all its training sessions (not kept
+            # by a saved model), so the values of the session are read from the levels' records of trained values
+            return canon_table([{"comparison": cc.output_column_name, "level": i,
+                                 "m_estimated_by_this_call": (cl._trained_m_probabilities[-1]["probability"] if cl._trained_m_probabilities else None)}
+                                for cc in linker._settings_obj.comparisons for i, cl in enumerate(cc.comparison_levels)])
+        rows = canon_table(r.as_record_dict())
+        _keep(state, op, r, rows)
+        return rows
+    if op == "blocking_analysis_user_table":
+        if not any(k == "user_table" for k, _ in state["registered"]):
+            return None
+        from splink import blocking_analysis as ba
+
+        if p["kind"] == "count_comparisons":
+            return canon_table([ba.count_comparisons_from_blocking_rule(table_or_tables=USER_TABLE_NAME, blocking_rule=p["rule"], link_type="dedupe_only", db_api=api)])
+        if p["kind"] == "cumulative_comparisons":
+            return canon_table(ba.cumulative_comparisons_to_be_scored_from_blocking_rules_data(
+                table_or_tables=USER_TABLE_NAME, blocking_rules=["l.d = r.d", p["rule"]], link_type="dedupe_only", db_api=api).to_dict(orient="records"))
+        return canon_table(ba.n_largest_blocks(table_or_tables=USER_TABLE_NAME, blocking_rule=p["rule"], link_type="dedupe_only", db_api=api, n_largest=3).as_record_dict())
     raise ValueError(op)
 
 
